@@ -194,8 +194,16 @@ S1_IDX = [(0, 'none'), (0, 'plain'), (-1, 'plain'), (-2, 'spaced'), (1, 'plus'),
 S1_CTX = ['PH0', '2 * PH0 - 1', '-PH0 ** 2', 'max(PH0, 0) + exp(PH0)', 'PH0 if PH0 > 0 else -PH0']
 
 
+S1_KEYWORD_NAMES = ['lambda', 'is', 'in', 'if', 'not', 'type', 'match']  # legal as {parameter} / <error> names only (type/match also as variables)
+
+
 def s1():
     """Every (name x kind x index form) as the sole right-hand-side term in 5 contexts, and as left-hand side."""
+    for nm in S1_KEYWORD_NAMES:
+        for kind, sp in S1_KINDS[1:] + ([('v', False)] if nm in ('type', 'match') else []):
+            for off, form in S1_IDX[:5]:
+                for ctx in S1_CTX[:2]:
+                    yield Program([Eq(Term('Y'), ctx, [Term(nm, kind, off, form, sp)])], 'S1-kw')
     for nm in S1_NAMES:
         for kind, sp in S1_KINDS:
             for off, form in S1_IDX:
@@ -231,7 +239,9 @@ S2_LEAVES = [
 ]
 S2_BIN = ['+', '-', '*', '/', '**', '<', '<=', '>', '>=', '==', '!=']
 S2_UNARY = ['-PH0', '+PH0', 'not PH0', 'exp(PH0)', 'log(PH0)', 'abs(PH0)', 'np.sqrt(PH0)', '-PH0 ** 2', '2 ** -PH0', '(-PH0) ** 2',
-            'np.log(PH0)', 'max(PH0, -PH0)', 'exp(log(PH0))', 'float(PH0)']
+            'np.log(PH0)', 'max(PH0, -PH0)', 'exp(log(PH0))', 'float(PH0)',
+            # namespaced functions are left untouched, also those whose last component is a replaced name
+            'np.max(PH0)', 'np.min(PH0) + 1', 'np.exp(PH0)', 'np.abs(PH0)', 'np.maximum(PH0, 0.5)', 'np.emath.sqrt(PH0)']
 S2_TRIPLE = ['PH0 if PH1 > 0 else PH2', 'PH0 and PH1 or PH2', 'PH0 <= PH1 < PH2', 'max(PH0, PH1, PH2)', 'min(PH0, max(PH1, PH2))', 'PH0 * (PH1 + PH2)',
              'PH0 - (PH1 - PH2)', 'PH0 / PH1 / PH2', 'PH0 ** PH1 ** PH2']
 
